@@ -30,6 +30,7 @@ def run(an: Analysis, rep):
     from .common import purity
     rep.run(purity, an, rep, "R13.P", ["from_code"])
     rep.run(block_rules, an, rep)
+    rep.run(r135, an, rep)
     from .common import SharedRules
     from . import c02
     rep.run(c02.jump_rules, an, SharedRules(rep, "R13.J", "decoded jump targets are the offsets CPython jumps to (shared with C02's R02.3/R02.5): blocks start exactly there"), False)
@@ -188,6 +189,64 @@ def block_rules(an: Analysis, rep):
         isinstance(g[0], ast.Call) and "Jump" in {x.id for x in ast.walk(g[0]) if isinstance(x, ast.Name)} for g in guards_of(f.module, f, parent_map(f.module)[id(_stmt_of(f, kw[0]))] if False else _stmt_of(f, kw[0])))
     rep.add("R13.4", f"{f.qual}::only jump operands are rewritten", bool(ok_k), loc(f.module, kw[0].value) if kw else loc(f.module, loop2),
             "the rewrite is guarded by isinstance(arg, Jump) and stores the index as Jump.target" if ok_k else "jump rewrite not recognised")
+
+
+def r135(an: Analysis, rep, rule="R13.5"):
+    """What the instruction decoder returns is what CodeData.blocks holds, and what to_code encodes is CodeData.blocks."""
+    rep.rule(rule, "decoded blocks reach CodeData.blocks unmodified; the encoder encodes exactly CodeData.blocks", 2)
+    for V in VERSIONS:
+        it, ret = an.interp("from_code", V)
+        pf = find_parser(an)
+        # the function that consumes the parser and returns the blocks
+        dec = None
+        for f in an.closure("from_code", V):
+            if any(isinstance(n, ast.Call) and pf.qual in it.callees.get(id(n), ()) for n in ast.walk(f.node)) and f is not pf:
+                dec = f
+        if dec is None:
+            raise AnalysisError("instruction decoder not found")
+        dret = frozenset()
+        for (q, ctx), summ in it.summaries.items():
+            if q == dec.qual:
+                dret = dret | summ["ret"]
+        produced = it.read_key(dret, 0)
+        stored = frozenset()
+        for a in ret:
+            stored = stored | it.hget(a, ("a", "blocks"))
+        extra = [a for a in stored if a not in produced]
+        rep.add(rule, "decoder::CodeData.blocks is the instruction decoder's result", not extra and bool(stored), "code_data/_code_data.py",
+                f"CodeData.blocks may hold a value built after decoding ({extra[0][1][3]} created at {extra[0][1][0]}:{extra[0][1][1]}): instructions are added, dropped or regrouped "
+                f"behind the decoder's back, so the blocks are no longer the partition of the instruction sequence CPython has" if extra
+                else "the `blocks` field receives exactly the first component of the decoder's result", config=vname(V))
+        # the decoder is handed code.co_code itself
+        bad = []
+        for (q, ctx), summ in it.summaries.items():
+            if q == pf.qual:
+                for pn, v in summ["args"].items():
+                    for a in v:
+                        if not (a[0] == "src" and a[1] == "code" and a[2] == (("a", "co_code"),)):
+                            bad.append(a)
+        rep.add(rule, "decoder::the parser is given co_code itself", not bad, loc(pf.module, pf.node),
+                f"the bytecode parser receives {bad[0][0]} {bad[0][1] if bad[0][0] != 'src' else ''}, not code.co_code: offsets no longer are CPython's offsets" if bad
+                else "the parser's only input is code.co_code", config=vname(V))
+        it_e, _ = an.interp("to_code", V)
+        enc_bad = []
+        for g in an.closure("to_code", V):
+            for n in ast.walk(g.node):
+                if isinstance(n, ast.Attribute) and n.attr == "blocks" and isinstance(n.ctx, ast.Load):
+                    pass
+        # every iteration source named `...blocks` in the encoder is the argument's own field
+        for (q, ctx), summ in it_e.summaries.items():
+            f2 = an.prog.find_function(q)
+            if f2 is None or f2.cls is not None:
+                continue
+            for pn, v in summ["args"].items():
+                if pn == "blocks":
+                    for a in v:
+                        if not (a[0] == "src" and a[1] == "self" and a[2] and a[2][-1] == ("a", "blocks")):
+                            enc_bad.append((q, a))
+        rep.add(rule, "encoder::encodes CodeData.blocks itself", not enc_bad, "code_data/_code_data.py",
+                f"{enc_bad[0][0]} receives blocks that are not the CodeData's own `blocks` field ({enc_bad[0][1][0]}): instructions are added or removed on the way to the bytes" if enc_bad
+                else "the block encoder receives the `blocks` field unmodified", config=vname(V))
 
 
 def _stmt_of(f, node):
